@@ -2,14 +2,14 @@ SPECIFICATION QSpec
 CONSTANTS
   Readers = {1, 2}
   KeySet = {1, 2}
-  Sizes = {1, 2, 3}
-  MAX = 2
-  PAR = 1
+  Sizes = {0, 1}
+  MAX = 0
+  PAR = 2
   NCALLS = 2
   FIXED = TRUE
-  ERRS = {FALSE, TRUE}
+  ERRS = {FALSE}
   TTL = TRUE
-  CLEAR = TRUE
+  CLEAR = FALSE
 INVARIANT QInv
 INVARIANT PNoCrash
 PROPERTY Refines
